@@ -162,7 +162,7 @@ func runC12(p *an.Prog, r *an.Run, tier string) {
 		return
 	}
 	ms := types.NewMethodSet(types.NewPointer(mem))
-	n := 0
+	n, nMiss := 0, 0
 	for i := 0; i < iface.NumMethods(); i++ {
 		name := iface.Method(i).Name()
 		_ = ms
@@ -211,6 +211,40 @@ func runC12(p *an.Prog, r *an.Run, tier string) {
 			r.Check(len(why) == 0, "effects-agree", name, m1.Pos(), "both drivers "+setString(s1.effects)+" "+setString(s1.fields), "the drivers' %s differ in what they touch — %s (memory %s%s, badger %s%s)", name, strings.Join(why, "; "), setString(s1.effects), setString(s1.fields), setString(s2.effects), setString(s2.fields))
 		}
 
+		// miss-distinguished: where the persistent driver answers a missing record with a sentinel, the memory driver
+		// tells a missing entry from a zero one (comma-ok lookup whose ok result is branched on) — a bare lookup
+		// compares the zero value, which the empty id / empty account boundary makes equal to a real argument
+		if miss := missSentinelSpaces(p, bad, m2); len(miss) > 0 {
+			var mw []string
+			nl := 0
+			for _, fn := range regionFuncs(p, m1) {
+				an.AllInstrs(fn, func(in ssa.Instruction) {
+					lk, ok := in.(*ssa.Lookup)
+					if !ok {
+						return
+					}
+					f := memMapField(lk.X)
+					if f == "" || miss[memSpace(f)] == "" {
+						return
+					}
+					nl++
+					okUsed := false
+					if lk.CommaOk {
+						for _, ref := range *lk.Referrers() {
+							if ex, ok := ref.(*ssa.Extract); ok && ex.Index == 1 && len(*ex.Referrers()) > 0 {
+								okUsed = true
+							}
+						}
+					}
+					if !okUsed {
+						mw = append(mw, "the lookup in "+f+" at "+p.Pos(lk.Pos())+" does not tell a missing entry from a zero one, while the persistent driver answers the miss with "+miss[memSpace(f)])
+					}
+				})
+			}
+			nMiss += nl
+			r.Check(len(mw) == 0, "miss-distinguished", name, m1.Pos(), "missing entries in "+setString(keysOf(miss))+" are told from zero ones in both drivers", "%s (for the empty id or account the two drivers answer differently)", strings.Join(mw, "; "))
+		}
+
 		why = nil
 		if d := setDiff(s1.sentinels, s2.sentinels); len(d) > 0 {
 			why = append(why, "only the memory driver returns "+strings.Join(d, ","))
@@ -241,6 +275,7 @@ func runC12(p *an.Prog, r *an.Run, tier string) {
 		}
 	}
 	r.Floor("store-methods", n, 15)
+	r.Floor("miss-lookups", nMiss, 7)
 
 	// ---- answers-from-store: every read method answers from the store's records on every path — a memoised result
 	// (a Stats cache, a remembered node) is only as fresh as its invalidation, and one forgotten writer makes the two
@@ -283,6 +318,15 @@ func runC12(p *an.Prog, r *an.Run, tier string) {
 	// ---- SetNode keeps peers
 	checkSetNodeKeepsPeers(p, r)
 
+	// ---- sweep-agree: both drivers run the expiry sweep over the tracked peers on every successful keep-alive (one
+	// that takes a short cut for some inputs — no reported peers, say — keeps peers the other driver hands back)
+	for _, d := range []*types.Named{mem, bad} {
+		if m := p.MethodOf(d, "UpdateNodePeers"); m != nil {
+			msg := sweepSkipped(p, d, m)
+			r.Check(msg == "", "sweep-agree", driverKind(d), m.Pos(), "every successful UpdateNodePeers passes the sweep over the tracked peers", "%s.UpdateNodePeers: %s (the other driver still expires them)", driverKind(d), msg)
+		}
+	}
+
 	badDec, nDec := freshDecodeViolations(p, func(fn *ssa.Function) bool { return true })
 	r.Floor("decode-sites", nDec, 8)
 	r.Check(len(badDec) == 0, "fresh-decode", "package badger", token.NoPos, "every struct/map decode target is fresh or reset", "%s", strings.Join(badDec, "; "))
@@ -309,6 +353,59 @@ func resolveAlloc(root ssa.Value) *ssa.Alloc {
 		}
 	}
 	return nil
+}
+
+func keysOf(m map[string]string) map[string]bool {
+	out := map[string]bool{}
+	for k := range m {
+		out[k] = true
+	}
+	return out
+}
+
+// missSentinelSpaces: key spaces whose miss the persistent driver's method answers with a store sentinel — the
+// innermost condition controlling a return of the sentinel derives from a read of that space (or from the
+// transaction that performed it) — mapped to the sentinel's name.
+func missSentinelSpaces(p *an.Prog, d *types.Named, m *ssa.Function) map[string]string {
+	out := map[string]string{}
+	ops := filterOps(driverOps(p, d, m), func(o storeOp) bool { return o.Kind == opRead })
+	regs := txnRegions(p, m)
+	for _, fn := range an.WithAnon(m) {
+		an.AllInstrs(fn, func(in ssa.Instruction) {
+			u, ok := in.(*ssa.UnOp)
+			if !ok || u.Op != token.MUL {
+				return
+			}
+			g, ok := u.X.(*ssa.Global)
+			if !ok || g.Pkg == nil || g.Pkg.Pkg.Path() != pkgStore || !strings.HasPrefix(g.Name(), "Err") {
+				return
+			}
+			cs := an.ControllingIfs(u.Block())
+			if len(cs) == 0 {
+				return
+			}
+			dc := p.Derives(0, cs[0].If.Cond)
+			for _, rd := range ops {
+				hit := false
+				if v, ok := rd.In.(ssa.Value); ok && dc.HasValue(v) {
+					hit = true
+				}
+				for _, reg := range regs {
+					if reg.Closure != nil && isNested(rd.Fn, reg.Closure) {
+						if v, ok := reg.Call.(ssa.Value); ok && dc.HasValue(v) {
+							hit = true
+						}
+					}
+				}
+				if hit {
+					for _, sp := range rd.Spaces {
+						out[sp] = "store." + g.Name()
+					}
+				}
+			}
+		})
+	}
+	return out
 }
 
 // unregisteredByNodeMiss: every return of ErrUnregisteredNode is controlled by a condition that derives from a read of the node space.
@@ -357,65 +454,37 @@ func unregisteredByNodeMiss(p *an.Prog, d *types.Named, m *ssa.Function) bool {
 func freshDecodeViolations(p *an.Prog, want func(*ssa.Function) bool) ([]string, int) {
 	var badDec []string
 	nDec := 0
+	helpers := decodeHelpers(p)
+	// loopItem decodes every record of a key space into its caller's single target: the target must be reset to its
+	// zero value before each decode (directly, or inside the decode helper it uses)
+	for fn, prms := range helpers {
+		if an.Ident(fn.Name()) != "loopItem" || !want(fn) {
+			continue
+		}
+		for i, site := range prms {
+			nDec++
+			_ = i
+			badDec = append(badDec, "loopItem decodes into its caller's reused target at "+p.Pos(site.Pos())+" without resetting it to its zero value first: fields omitted by gob keep the previous record's value (e.g. a trial balance read after a wallet balance keeps that wallet's Account in Stats)")
+		}
+	}
+	if lf := p.Func("pool/store/badger", "loopItem"); lf != nil && len(helpers[lf]) == 0 {
+		nDec++
+	}
 	for _, fn := range badgerPkgFuncs(p) {
 		if !want(fn) {
 			continue
 		}
 		for _, c := range an.Calls(fn, false) {
-			f := an.CallObj(c)
-			var target ssa.Value
-			switch {
-			case an.IsFunc(f, pkgBadger, "getItem") && len(c.Common().Args) == 3:
-				target = c.Common().Args[2]
-			case an.IsMethod(f, "encoding/gob", "Decoder", "Decode") && len(c.Common().Args) == 2:
-				target = c.Common().Args[1]
-			default:
+			target := decodeTarget(helpers, c)
+			if target == nil {
 				continue
 			}
 			v := underlyingConcrete(target)
-			if fn.Parent() != nil && an.Ident(fn.Parent().Name()) == "loopItem" {
-				// loopItem decodes every record into its caller's single target: it must reset it first
-				okReset := false
-				for _, cc := range an.Calls(fn, false) {
-					if an.IsMethod(an.CallObj(cc), "reflect", "Value", "Set") && an.Dominates(cc.(ssa.Instruction), c.(ssa.Instruction)) {
-						if len(cc.Common().Args) == 2 {
-							if zc, ok := cc.Common().Args[1].(*ssa.Call); ok && an.IsFunc(an.CallObj(zc), "reflect", "Zero") {
-								okReset = true
-							}
-						}
-					}
-				}
-				nDec++
-				if !okReset {
-					badDec = append(badDec, "loopItem decodes into a reused target at "+p.Pos(c.Pos())+" without resetting it to its zero value first: fields omitted by gob keep the previous record's value (e.g. a zero Credit reads as the previous balance's Credit in Stats)")
-				}
-				continue
-			}
 			root, path := an.RootPath(v)
-			// targets handed in by the caller are the caller's obligation (getItem, loopItem)
-			if _, isPrm := root.(*ssa.Parameter); isPrm {
-				if an.Ident(fn.Name()) == "loopItem" || (fn.Parent() != nil && an.Ident(fn.Parent().Name()) == "loopItem") {
-					continue
-				}
+			// targets handed in by the caller are the caller's obligation: such a function is a decode helper and its
+			// call sites are decode sites (decodeHelpers); loopItem's own obligation is decided below
+			if decodeParam(fn, root) != nil {
 				continue
-			}
-			if fv, isFV := root.(*ssa.FreeVar); isFV {
-				// closure view of a local or of a parameter
-				if fn.Parent() != nil && an.Ident(fn.Parent().Name()) == "loopItem" {
-					// loopItem resets its target with reflect.Zero before decoding: require that call
-					okReset := false
-					for _, cc := range an.Calls(fn, false) {
-						if an.IsMethod(an.CallObj(cc), "reflect", "Value", "Set") && an.Dominates(cc.(ssa.Instruction), c.(ssa.Instruction)) {
-							okReset = true
-						}
-					}
-					nDec++
-					if !okReset {
-						badDec = append(badDec, "loopItem decodes into a reused target at "+p.Pos(c.Pos())+" without resetting it first")
-					}
-					continue
-				}
-				_ = fv
 			}
 			pt, ok := v.Type().Underlying().(*types.Pointer)
 			if !ok {
@@ -477,6 +546,137 @@ func freshDecodeViolations(p *an.Prog, want func(*ssa.Function) bool) ([]string,
 		}
 	}
 	return badDec, nDec
+}
+
+// decodeParam: the parameter of the enclosing top-level function that root stands for (directly, through the spill
+// slot of a captured parameter, or through a closure's free variable), or nil.
+func decodeParam(fn *ssa.Function, root ssa.Value) *ssa.Parameter {
+	switch x := root.(type) {
+	case *ssa.UnOp:
+		if x.Op == token.MUL {
+			return decodeParam(fn, x.X)
+		}
+		return nil
+	case *ssa.Parameter:
+		if x.Parent().Parent() == nil {
+			return x
+		}
+		return nil
+	case *ssa.FreeVar, *ssa.Alloc:
+		al := resolveAlloc(x)
+		if al == nil {
+			return nil
+		}
+		var out *ssa.Parameter
+		an.AllInstrs(al.Parent(), func(in ssa.Instruction) {
+			if st, ok := in.(*ssa.Store); ok && st.Addr == ssa.Value(al) {
+				if prm, ok := st.Val.(*ssa.Parameter); ok && prm.Parent().Parent() == nil {
+					out = prm
+				}
+			}
+		})
+		return out
+	}
+	return nil
+}
+
+// resetParam: the parameter whose pointee reflect.ValueOf(x).Elem() (the receiver v of a Set call) stands for.
+func resetParam(p *an.Prog, fn *ssa.Function, v ssa.Value) *ssa.Parameter {
+	for i := 0; i < 8; i++ {
+		c, ok := v.(*ssa.Call)
+		if !ok || len(c.Call.Args) == 0 {
+			break
+		}
+		f := an.CallObj(c)
+		if !(an.IsMethod(f, "reflect", "Value", "Elem") || an.IsFunc(f, "reflect", "ValueOf") || an.IsFunc(f, "reflect", "Indirect")) {
+			break
+		}
+		v = c.Call.Args[0]
+	}
+	root, _ := an.RootPath(underlyingConcrete(v))
+	return decodeParam(fn, root)
+}
+
+// decodeTarget: the value c gob-decodes into (a gob Decode call, or a call of a decode helper), or nil.
+func decodeTarget(helpers map[*ssa.Function]map[int]ssa.Instruction, c ssa.CallInstruction) ssa.Value {
+	f := an.CallObj(c)
+	if an.IsMethod(f, "encoding/gob", "Decoder", "Decode") && len(c.Common().Args) == 2 {
+		return c.Common().Args[1]
+	}
+	if callee := c.Common().StaticCallee(); callee != nil {
+		for i := range helpers[callee] {
+			if i < len(c.Common().Args) {
+				return c.Common().Args[i]
+			}
+		}
+	}
+	return nil
+}
+
+// decodeHelpers: functions of the persistent driver that gob-decode into a target handed in by their caller without
+// resetting it first (getItem, loopItem and whatever they are built from), with the parameter index and one decode
+// site each. Fixpoint over helper calls.
+func decodeHelpers(p *an.Prog) map[*ssa.Function]map[int]ssa.Instruction {
+	out := map[*ssa.Function]map[int]ssa.Instruction{}
+	for changed := true; changed; {
+		changed = false
+		for _, fn := range badgerPkgFuncs(p) {
+			top := fn
+			for top.Parent() != nil {
+				top = top.Parent()
+			}
+			for _, c := range an.Calls(fn, false) {
+				target := decodeTarget(out, c)
+				if target == nil {
+					continue
+				}
+				root, _ := an.RootPath(underlyingConcrete(target))
+				prm := decodeParam(fn, root)
+				if prm == nil || prm.Parent() != top {
+					continue
+				}
+				idx := -1
+				for i, q := range top.Params {
+					if q == prm {
+						idx = i
+					}
+				}
+				if idx < 0 || out[top][idx] != nil {
+					continue
+				}
+				// reset: reflect.ValueOf(target).Elem().Set(reflect.Zero(..)) dominating the decode, in the same loop
+				// iteration when the decode sits in a loop
+				okReset := false
+				for _, cc := range an.Calls(fn, false) {
+					if !an.IsMethod(an.CallObj(cc), "reflect", "Value", "Set") || len(cc.Common().Args) != 2 {
+						continue
+					}
+					if zc, ok := cc.Common().Args[1].(*ssa.Call); !ok || !an.IsFunc(an.CallObj(zc), "reflect", "Zero") {
+						continue
+					}
+					if !an.Dominates(cc.(ssa.Instruction), c.(ssa.Instruction)) {
+						continue
+					}
+					if h := loopHeader(c.Block()); h != nil && !h.Dominates(cc.Block()) {
+						continue
+					}
+					if q := resetParam(p, fn, cc.Common().Args[0]); q != prm {
+						continue
+					}
+					okReset = true
+				}
+				if okReset {
+					continue
+				}
+				if out[top] == nil {
+					out[top] = map[int]ssa.Instruction{}
+				}
+				out[top][idx] = c.(ssa.Instruction)
+				changed = true
+			}
+		}
+	}
+	return out
 }
 
 // checkSetNodeKeepsPeers: the pool calls SetNode on every (re)connect; the peers tracked for the node (what billing
